@@ -18,12 +18,22 @@ out = ["### 8.3 Which checks catch which changes", "",
        "| seeded change | breaks | what changes | check | result | failing key |", "|---|---|---|---|---|---|"]
 for r in rows:
     out.append("| %s | %s | %s | %s | %s | `%s` |" % (r[0], r[1], r[2].replace("|", "/"), r[3], r[4].replace("|", "/"), r[5]))
-caught = sum(1 for r in rows if r[3] == r[1] and ("caught" in r[4]))
+own = {}
+other = {}
+for r in rows:
+    if r[3] == r[1]:
+        own[r[0]] = r[4]
+    elif r[4].startswith("caught"):
+        other[r[0]] = r[3]
 total = len({r[0] for r in rows})
-first = sum(1 for r in rows if r[3] == r[1] and r[4].startswith("caught"))
-out += ["", f"Totals: {total} seeded changes kept; {first} caught by the property's check as first built, "
-        f"{caught - first} caught after strengthening the check, "
-        f"{total - caught} caught only by a neighbouring property's check or not at all (see rows).", ""]
+first = sum(1 for v in own.values() if v.startswith("caught"))
+later = sum(1 for v in own.values() if v.startswith("missed at first") and "caught after" in v)
+neigh = sorted(k for k, v in own.items() if not v.startswith("caught") and "caught after" not in v and k in other)
+none = sorted(k for k, v in own.items() if not v.startswith("caught") and "caught after" not in v and k not in other)
+out += ["", f"Totals: {total} seeded changes kept; {first} caught by the property's own check as first built; "
+        f"{later} missed at first and caught after the check was strengthened; "
+        f"{len(neigh)} caught by a neighbouring property's check only ({', '.join(f'{k} by {other[k]}' for k in neigh)}); "
+        f"{len(none)} not caught ({', '.join(none)}; reasons in the rows: declared don't-care, value outside the stated domain, ~100 MiB inputs).", ""]
 mut = sorted(os.path.basename(p) for p in glob.glob(os.path.join(root, "harness", "mutants", "*.diff")))
 by = {}
 for m in mut:
